@@ -177,6 +177,13 @@ def check(ctx):
     # own except a genuine duplicate (C11's recogniser): a creator helper `expect`s that encoding
     from rules.c11 import check_map_encoder, HEADER_EMIT, HEADER_EXTRAS
     check_map_encoder(ctx.under("R-6", "header-encoder"), "header::Header", HEADER_EMIT, HEADER_EXTRAS)
+    # "any change to AAD or payload changes the bytes handed over": the bytes are an injective encoding of (context, headers,
+    # aad, payload) because each structure function assembles the RFC array of a text string and byte strings and hands it to
+    # the one serialiser - the layout recogniser of C03-C05 R-1 / R-2 under this property (a hand-written head encoder that
+    # drops the length byte of a 24-byte field - seed C06-o - makes two different (aad, payload) pairs collide)
+    for _sfn in ("sign::sig_structure_data", "mac::mac_structure_data", "encrypt::enc_structure_data"):
+        S.check_context_strings(ctx.under("R-6", "layout"), "R-1", _sfn)
+        S.check_assembly(ctx.under("R-6", "layout"), "R-2", _sfn)
     # R-5
     statics = prog.d.get("statics", [])
     ctx.ob("R-5", "no-statics", not statics, "the crate defines no static items", detail={"statics": statics})
@@ -194,3 +201,4 @@ def check(ctx):
     ctx.ob("R-5", "no-interior-mutability", not bad, "no Cell/RefCell/Mutex/atomic appears in any type or local of the crate",
            detail={"found": sorted(bad)[:10]})
     ctx.floor("R-1", "helper families", len(FAMILIES), 9)
+META["decides"] += ' R-6 also re-checks the layout of the three structures (context strings, array assembly through the one serialiser: C03-C05 R-1 / R-2), on which the clause "any change of AAD / payload changes the bytes" rests.'
